@@ -453,12 +453,45 @@ def r5_domain_len(ctx):
         ctx.ob("R07.5", "create_proxy_stream:domain-len-cast", ok, "src/client/client.rs:%s" % c["line"], det)
 
 
+IP_PREDICATES = ("is_broadcast", "is_multicast", "is_loopback", "is_private", "is_unspecified", "is_link_local", "is_documentation", "is_global", "is_unique_local", "is_unicast_link_local", "is_benchmarking",
+                 "is_reserved", "is_shared")
+
+
+def r10_no_judgement_on_the_destination(ctx):
+    """the proxy goes where it is told: no code looks at *which* address was requested to decide whether to serve it (address
+    classes, the value of an octet) — x.y.z.255 is an ordinary host outside a /24, loopback and private ranges are what a proxy
+    inside a network is for. `octets()` is used to encode addresses; a comparison on one octet is a judgement"""
+    n = 0
+    bad = []
+    for key, body in ctx.P.scan():
+        if key.startswith(("anytls_", "util::cert", "util::tls")):
+            continue
+        o = None
+        for c in body.calls():
+            last = (c.norm or "").split("::")[-1]
+            if last in IP_PREDICATES and ("Ipv4Addr" in (c.norm or "") or "Ipv6Addr" in (c.norm or "") or "IpAddr" in (c.norm or "") or "SocketAddr" in (c.norm or "")):
+                bad.append((key, c, last))
+            if last in ("octets", "segments"):
+                n += 1
+        # a condition on an octet of an address
+        for cd in ctx.conds(body).all():
+            if cd.kind in ("bool", "int") and any(is_call_term(s_, "::octets", "::segments") for s_ in subterms(cd.term)):
+                bad.append((key, None, "a test of `%s`" % fmt(cd.term)[:50]))
+    ctx.ob("R07.10", "crate:no-judgement-on-the-requested-address", not bad, bad[0][1].site if bad and bad[0][1] is not None else "",
+           "%d uses of octets()/segments(), all to encode addresses; no address-class predicate" % n if not bad else
+           "%s decides on %s: destinations in that class are refused or treated differently although they were requested like any other (an IPv4 address ending in .255 is not a broadcast address unless the network is a /24)"
+           % (ctx.P.owner(bad[0][0]), bad[0][2]))
+
+
 def run(ctx):
+    r10_no_judgement_on_the_destination(ctx)
     from . import effects
     effects.check_property(ctx, "C07")    # R07.E: no operation on shared protocol state outside the reviewed table
     from . import C17
     C17.r6_target_derivation(ctx)    # the HTTP front-end: which host:port a request names (absolute form, Host header, default ports)
     C17.r7_parsing_totality(ctx)
+    from . import C16 as _C16d
+    _C16d.r3_reads(ctx)              # the SOCKS5 greeting is consumed exactly (NMETHODS bytes): what follows it — the request naming the destination — is not swallowed
     C17.r3b_scan_window(ctx)         # the head of an HTTP request is recognised wherever the reads cut it, so that its destination is extracted at all
     r1_port_dependence(ctx)
     r2_byte_order(ctx)
